@@ -123,17 +123,22 @@ def certOK (G : Sym3) (K : Nat) (m : Rat) : Bool :=
   let kk : Rat := ((K : Rat) + 1/2)^2 * G.det
   decide (m * G.adj1 ≤ kk) && decide (m * G.adj2 ≤ kk) && decide (m * G.adj3 ≤ kk)
 
-/-- squared minimum-image length of the fractional vector `v` under metric `G`;
-`fuel` bounds the box growth (the certificate is reached at a `K` that depends
-only on the cell's skewness; 8 is ample for every cell in the pools). -/
-def minImageSqAux (G : Sym3) (f : V3) : Nat → Nat → Rat
-  | 0, K => boxMin G f K
+/-- squared minimum-image length of the fractional vector `f` (already reduced to [−½, ½]³) under
+metric `G`: enlarge the box until the certificate holds; `none` when `fuel` runs out before that
+(never for the cells in the pools; the driver reports it as −1 and the harness rejects the case). -/
+def minImageSqAux (G : Sym3) (f : V3) : Nat → Nat → Option Rat
+  | 0, _ => none
   | fuel + 1, K =>
     let m := boxMin G f K
-    if certOK G K m then m else minImageSqAux G f fuel (K + 1)
+    if certOK G K m then some m else minImageSqAux G f fuel (K + 1)
+
+def minImageSqCert (G : Sym3) (v : V3) : Option Rat :=
+  minImageSqAux G (v.map minImg1) 8 1
 
 def minImageSq (G : Sym3) (v : V3) : Rat :=
-  minImageSqAux G (v.map minImg1) 8 1
+  match minImageSqCert G v with
+  | some m => m
+  | none => -1
 
 /-- squared periodic distance between fractional points `a`, `b`. -/
 def pbcDistSq (G : Sym3) (a b : V3) : Rat := minImageSq G (b - a)
